@@ -30,14 +30,14 @@ void ThreePointsNumericalDerivative::updateDerivatives(const ParameterList& para
     string lastVar;
     bool functionChanged = false;
     ParameterList p;
-    bool start = true;
     for (size_t i = 0; i < variables_.size(); ++i)
     {
       string var = variables_[i];
       if (!parameters.hasParameter(var))
         continue;
-      if (!start)
+      if (functionChanged)
       {
+        // also reset the parameter that was moved last
         vector<string> vars(2);
         vars[0] = var;
         vars[1] = lastVar;
@@ -46,10 +46,7 @@ void ThreePointsNumericalDerivative::updateDerivatives(const ParameterList& para
       else
       {
         p = parameters.createSubList(var);
-        start = false;
       }
-      lastVar = var;
-      functionChanged = true;
       double value = function_->getParameterValue(var);
       double h = -(1. + std::abs(value)) * h_;
       if (abs(h) < p[0].getPrecision())
@@ -127,6 +124,14 @@ void ThreePointsNumericalDerivative::updateDerivatives(const ParameterList& para
       {
         der1_[i] = (f1_ - f3_) / (hf1 - hf3);
         der2_[i] = ((f1_ - f2_) / hf1 - (f3_ - f2_) / hf3) * 2 / (hf1 - hf3);
+      }
+
+      // Only a parameter that was actually moved has to be reset later on
+      // (all probes may have been rejected by the constraint):
+      if (function_->getParameterValue(var) != value)
+      {
+        lastVar = var;
+        functionChanged = true;
       }
     }
 
